@@ -809,6 +809,13 @@ sock_close(nni_sock *s, bool device)
 	}
 	nni_mtx_unlock(&sock_lk);
 
+	// An operation that obtained its reference before the socket was
+	// closed may have reached the protocol only after the protocol's
+	// sock_close had run (above, in sock_shutdown).  No further
+	// operation can arrive now, so run it once more to complete any
+	// such straggler instead of leaving it pending on freed memory.
+	s->s_sock_ops.sock_close(s->s_data);
+
 	// Because we already shut everything down before, we should not
 	// have any child objects.
 	nni_mtx_lock(&s->s_mx);
